@@ -556,7 +556,7 @@ class _Run:
                 self.mval[ti][pn] = oldv
         elif k == 'const':
             how = op['how']
-            cur = self.mval[ti]['k']
+            cur = getattr(t, 'k')       # the value actually held (the model's may be ahead while a source is tainted)
             # re-assigning the identical object to a constant is allowed: only clearly different values are attempted
             if how == 'plain' and cur != 7:
                 self.attempt(lambda: setattr(t, 'k', 7), False, f"const T{ti}.k = 7", ti, 'k')
